@@ -127,7 +127,7 @@ def wiring_cases(draw, tier):
     m = draw(st.sampled_from(GRID)); r = draw(st.sampled_from(GRID))
     return dict(layers=L, mult=[m.numerator, m.denominator], ratio=[r.numerator, r.denominator],
                 default_rule=draw(st.integers(0, 5)) == 0, which=draw(st.sampled_from(["decoder", "stack"])),
-                convert=draw(st.sampled_from([None, None, "bfloat16", "half", "double", "float"])))
+                convert=draw(st.sampled_from([None, None, "bfloat16", "half", "double", "float"])), positional=draw(st.integers(0, 2)) == 0)
 
 
 def run_wiring(case) -> CaseResult:
@@ -147,11 +147,19 @@ def run_wiring(case) -> CaseResult:
         kw = dict(residual_scaling=recording)
     try:
         if case["which"] == "decoder":
-            mod = uu.TransformerDecoder(hidden_size=4, vocab_size=8, layers=L, heads=1, **kw)
+            if case.get("positional") and kw:
+                mod = uu.TransformerDecoder(4, 8, L, 1, 0.0, kw["residual_scaling"])   # documented parameter order, all positional
+            else:
+                mod = uu.TransformerDecoder(hidden_size=4, vocab_size=8, layers=L, heads=1, **kw)
             stack = mod.layers
         else:
             from unit_scaling._modules import TransformerStack
-            stack = TransformerStack(layers=L, hidden_size=4, heads=1, is_causal=True, **kw)
+            if case.get("positional") and kw:
+                stack = TransformerStack(L, kw["residual_scaling"], hidden_size=4, heads=1, is_causal=True)   # (layers, residual_scaling, **layer options)
+            else:
+                stack = TransformerStack(layers=L, hidden_size=4, heads=1, is_causal=True, **kw)
+        if case.get("positional") and kw:
+            res.labels.append("positional-constructor")
     except Exception as e:  # noqa: BLE001
         res.fail(exc_bucket("C07.wiring.raises", e), f"{e}")
         return res
